@@ -29,6 +29,7 @@ class StepLoop(asyncio.SelectorEventLoop):
         self.hold_time = lambda: False        # while True the virtual clock is frozen (engine paused: the main thread
         #                                       is taking its decision and must not race with timers on the loop)
         self._held = None
+        self._blocked_point_done = False
         self._inflight = False
         self._helper_done = threading.Event()
         self.inject_results = []
@@ -65,10 +66,34 @@ class StepLoop(asyncio.SelectorEventLoop):
             self._inflight = False
             if self.after_inject is not None:
                 self.after_inject()
+            # scheduling point 'landed': a further request may arrive after this one has landed and before the run
+            # task takes its next step (e.g. a second suspender tripping while the state is already 'suspending')
+            if self.active():
+                p = self.point
+                self.point += 1
+                if self.on_point:
+                    self.on_point(p, "landed")
+                fn = self.pick(p, "landed")
+                if fn is not None:
+                    self._start_injection(fn, p, "landed")
+                    return
             if self._held is not None:
                 self._ready.appendleft(self._held)
                 self._held = None
         frozen = self.hold_time()
+        if (not self._ready and not self._scheduled and not self._inflight and not frozen and not self._stopping
+                and self.active() and not self._blocked_point_done):
+            # nothing to do at all: the run task waits for something external (a suspender's release, a manual status):
+            # scheduling point 'blocked' (once per blocked period)
+            self._blocked_point_done = True
+            p = self.point
+            self.point += 1
+            if self.on_point:
+                self.on_point(p, "blocked")
+            fn = self.pick(p, "blocked")
+            if fn is not None:
+                self._start_injection(fn, p, "blocked")
+                return
         block = not self._ready and not self._stopping and (self._inflight or not self._scheduled or frozen)
         ev = self._selector.select(None if block else 0)
         self._process_events(ev)
@@ -90,6 +115,7 @@ class StepLoop(asyncio.SelectorEventLoop):
             if not h._cancelled:
                 self._ready.append(h)
         if self._ready:
+            self._blocked_point_done = False
             h = self._ready[0]
             if not h._cancelled and not self._inflight and self.is_run_step(h) and self.active():
                 p = self.point
